@@ -85,16 +85,19 @@ def st_arg_for(draw, kind, nvars, raws_types, cfg):
     if kind in ("v", "lg"):
         raise ValueError("vector args need a length; use st_vec")
     if kind == "i":
-        opts = [st.integers(cfg.get("imin", 0), cfg.get("imax", 2)).map(lambda k: ["iconst", k, "py"]),
-                st_expr(nvars, 1).map(lambda e: ["ipos", e])]
+        opts = [st.integers(cfg.get("imin", 0), cfg.get("imax", 2)).map(lambda k: ["iconst", k, "py"])]
+        if not cfg.get("const_idx", False):
+            opts.append(st_expr(nvars, 1).map(lambda e: ["ipos", e]))
         ints = [j for j, t in enumerate(raws_types) if t == "i"]
         if ints:
             opts.append(st.sampled_from(ints).map(lambda j: ["iraw", j]))
         return draw(st.one_of(*opts))
-    if kind == "b":
+    if kind in ("b", "bi"):
         opts = [st_expr(nvars, 1).map(lambda e: ["bpos", e]),
                 st_expr(nvars, 1).map(lambda e: ["bpos", e])]
-        if cfg.get("py_flags", True):
+        if kind == "bi" and cfg.get("const_idx", False):
+            opts = []
+        if cfg.get("py_flags", True) or not opts:
             opts.append(st.booleans().map(lambda b: ["bconst", b, "py"]))
         bools = [j for j, t in enumerate(raws_types) if t == "b"]
         if bools:
@@ -229,16 +232,30 @@ def st_node(draw, kind, depth, cfg):
     if kind == "scan":
         kern = draw(st_static(2, depth, cfg, ret="pair", max_stmts=2))
         return {"k": "scan", "g": kern, "n": draw(st.integers(cfg.get("scan_nmin", 1), cfg.get("nmax", 3)))}
+    if kind in ("accumulate", "reduce"):
+        kern = draw(st_static(2, depth, cfg, ret="f", max_stmts=2))
+        return {"k": kind, "g": kern, "n": draw(st.integers(1, cfg.get("nmax", 3)))}
+    if kind in ("iterate", "iterate_final", "masked_iterate", "masked_iterate_final"):
+        kern = draw(st_static(1, depth, cfg, ret="f", max_stmts=2))
+        return {"k": kind, "g": kern, "n": draw(st.integers(1, cfg.get("nmax", 4)))}
     if kind == "switch":
         nb = draw(st.integers(2, 3))
-        return {"k": "switch", "bs": [draw(st_wrapped_scalar_fn(depth, cfg)) for _ in range(nb)]}
+        return {"k": "switch", "bs": _disjoin([draw(st_wrapped_scalar_fn(depth, cfg)) for _ in range(nb)])}
     if kind == "or_else":
-        return {"k": "or_else", "a": draw(st_wrapped_scalar_fn(depth, cfg)), "b": draw(st_wrapped_scalar_fn(depth, cfg))}
+        a, b = _disjoin([draw(st_wrapped_scalar_fn(depth, cfg)), draw(st_wrapped_scalar_fn(depth, cfg))])
+        return {"k": "or_else", "a": a, "b": b}
     if kind == "mix":
         nb = draw(st.integers(2, 3))
-        return {"k": "mix", "bs": [draw(st_wrapped_scalar_fn(depth, cfg)) for _ in range(nb)]}
+        return {"k": "mix", "bs": _disjoin([draw(st_wrapped_scalar_fn(depth, cfg)) for _ in range(nb)])}
     if kind == "mask":
         return {"k": "mask", "g": draw(st_wrapped_scalar_fn(depth, cfg))}
+    if kind == "map":
+        g = draw(st_wrapped_scalar_fn(depth, cfg))
+        return {"k": "map", "g": g, "post": draw(st_expr(1, 2))}
+    if kind == "contramap":
+        g = draw(st_wrapped_scalar_fn(depth, cfg))
+        m = draw(st.integers(1, 2))
+        return {"k": "contramap", "g": g, "m": m, "pre": [draw(st_expr(m, 1)) for _ in range(len(gfi.sig(g)))]}
     if kind == "dimap":
         g = draw(st_wrapped_scalar_fn(depth, cfg))
         kk = len(gfi.sig(g))
@@ -247,6 +264,32 @@ def st_node(draw, kind, depth, cfg):
         post = draw(st_expr(m + kk + 1, 1))
         return {"k": "dimap", "g": g, "m": m, "pre": pre, "post": post}
     raise ValueError(kind)
+
+
+def _disjoin(branches):
+    """Branches of a switch may share an address only when both trace a distribution there: the same
+    address holding a leaf in one branch and a sub-map (or an indexed map) in another is a malformed
+    program outside the statements (lookups through such a choice map are not defined)."""
+    out = []
+    for bi, b in enumerate(branches):
+        b = dict(b)
+        stmts = []
+        for s in b["stmts"]:
+            s = dict(s)
+            a = s["addr"]
+            if isinstance(a, list):
+                s["addr"] = [f"{a[0]}t{bi}"] + list(a[1:])
+                stmts.append(s)
+                continue
+            elif s["callee"]["k"] != "dist":
+                s["addr"] = f"{a}{bi}"
+            elif gfi.DISTS[s["callee"]["name"]][1] != "f":
+                # a shared address always holds values of one dtype (a constraint is offered to every branch)
+                s["addr"] = f"{a}_{gfi.DISTS[s['callee']['name']][1]}"
+            stmts.append(s)
+        b["stmts"] = stmts
+        out.append(b)
+    return out
 
 
 @st.composite
@@ -279,11 +322,13 @@ def st_args(draw, node, cfg=None):
             out.append([draw(st_float()) for _ in range(node["n"])])
         elif kind == "lg":
             out.append([draw(st_float()) for _ in range(len(node["bs"]))])
+        elif kind == "vb":
+            out.append([draw(st.booleans()) for _ in range(node["n"])])
         elif kind == "i":
             nb = len(node["bs"])
             lo, hi = (-2, nb + 1) if cfg.get("oob", False) else (0, nb - 1)
             out.append(draw(st.integers(lo, hi)))
-        elif kind == "b":
+        elif kind in ("b", "bi"):
             out.append(draw(st.booleans()))
         elif kind[0] == "args":
             sub = node["bs"][pos - 1] if k in ("switch", "mix") else (node["a"] if pos == 1 else node["b"])
